@@ -42,7 +42,8 @@ def gen_program(rng, idx):
     mbn = 0
 
     def flush_waits(a, force=False):
-        if pending[a] and (force or rng.chance(1, 2)):
+        # let asynchronous handles pile up now and then, so that wait_any sees several activities one of which fails
+        if pending[a] and (force or rng.chance(1, 2 if len(pending[a]) >= 2 else 4)):
             if len(pending[a]) >= 2 and rng.chance(1, 2):
                 ops[a].append("wany." + ".".join(str(s) for s in pending[a]))
                 if rng.chance(1, 2):
@@ -69,8 +70,8 @@ def gen_program(rng, idx):
             mb = mbn % 8 if rng.chance(5, 6) else rng.below(8)
             mbn += 1
             size = rng.choice([256, 512, 1024, 2048, 4096])
-            ss = rng.choice(["put", "put", "iput", "iput", "dput"])
-            rs = rng.choice(["get", "get", "iget"])
+            ss = rng.choice(["put", "put", "iput", "iput", "iput", "dput"])
+            rs = rng.choice(["get", "get", "iget", "iget"])
             first, second = (s, r) if rng.chance(1, 2) else (r, s)
             for a in (first, second):
                 if a == s:
@@ -178,9 +179,24 @@ def fault_points(p, dates, rng, tier):
     return cases
 
 
-def classify(verdict, impl):
+KEY_WANY = "waitany-after-failed-simcall-segv"
+
+
+def classify(verdict, impl, query=""):
     if "aborts" in verdict and "CommImpl::start" in verdict:
         return KEY_ASSERT
+    if "CRASH 11" in impl:
+        # SIGSEGV while an actor enters wait_any right after one of its simcalls ended with an exception
+        # (Simcall.cpp leaves simcall_.observer_ dangling; ActivityWaitanySimcall's constructor dereferences it)
+        lines = [l.split() for l in impl.split(" | ")]
+        issues = [l for l in lines if len(l) >= 4 and l[2] == "issue"]
+        if issues:
+            who, k = issues[-1][1], int(issues[-1][3])
+            progs = [t.split(":")[2].split(",") for t in query.split() if t.startswith("a:")]
+            a = int(who[1:])
+            rets = [l for l in lines if len(l) >= 5 and l[1] == who and l[2] == "ret"]
+            if a < len(progs) and k < len(progs[a]) and progs[a][k].startswith("wany") and rets and rets[-1][4] in ("net", "host"):
+                return KEY_WANY
     return None
 
 
@@ -286,7 +302,7 @@ def run(ctx):
             ctx.cov["traces_validated_against_impl"] += 1
         elif v.startswith("MONFAIL"):
             what = v.split(" => ", 1)[1] if " => " in v else v
-            ctx.violation(what, {"query": q, "impl": impl, "verdict": v}, key=classify(v, impl))
+            ctx.violation(what, {"query": q, "impl": impl, "verdict": v}, key=classify(v, impl, q))
         else:
             # the model does not accept the implementation's trace while the monitor holds on it: correspondence broken
             disagreements += 1
